@@ -145,6 +145,16 @@ func runOnce(c *Case, budget time.Duration) (res outcome, finished bool, fatal b
 	return res, true, false
 }
 
+// Caps of the time budgets.  A walk of a seed-sized input takes milliseconds,
+// the most expensive legitimate one (256 MiB drained) a few seconds; a
+// confirming run of 200 s (400 s on a loaded machine), alone, three times in
+// a row, leaves four to five orders of magnitude.  Without the cap a real
+// hang on a 100 KB input would be confirmed only after two hours.
+const (
+	suspectCap = 90 * time.Second
+	confirmCap = 200 * time.Second
+)
+
 // abandoned counts walks which were given up on and are still running.
 var abandoned atomic.Int32
 
@@ -164,16 +174,19 @@ func checkCase(c *Case) error {
 	journal(c)
 	c.st, c.timing, c.excluded, c.disturbed = nil, "", nil, false
 	base := baseBudget(len(c.Data))
-	res, finished, fatal := runOnce(c, time.Duration(float64(base)*loadScale()))
+	// The first budget only decides whether the case is looked at again, so
+	// it may be capped (large inputs on a loaded machine would otherwise wait
+	// for an hour before the confirming runs even start).
+	res, finished, fatal := runOnce(c, min(time.Duration(float64(base)*loadScale()), suspectCap))
 	if !finished {
 		for try := 0; try < 3 && !finished; try++ {
 			// the confirming runs get 20 times the budget; the load factor
 			// is capped here, or a real hang would be waited for for hours
-			res, finished, fatal = runOnce(c, time.Duration(20*float64(base)*min(loadScale(), 2)))
+			res, finished, fatal = runOnce(c, time.Duration(float64(min(20*base, confirmCap))*min(loadScale(), 2)))
 		}
 		if !finished {
-			msg := fmt.Sprintf("hang: walking %d bytes in mode %s did not finish within %v, nor within %v in any of three further runs (budget 5 s + 1 ms/byte, x20, scaled by the load of the machine)",
-				len(c.Data), modeNames[c.Mode%3], base, 20*base)
+			msg := fmt.Sprintf("hang: walking %d bytes in mode %s did not finish within %v, nor within %v in any of three further runs (budget 5 s + 1 ms/byte, x20 capped at %v, scaled by the load of the machine)",
+				len(c.Data), modeNames[c.Mode%3], min(base, suspectCap), min(20*base, confirmCap), confirmCap)
 			if !replaying {
 				vt.Fatal(property, kindCase, c, msg)
 			}
@@ -206,6 +219,7 @@ func classify(c *Case) (bool, []string) {
 	add(st.Streams > 0, "streams-drained")
 	add(st.StreamErrs > 0, "stream-errors")
 	add(st.DrainCapped > 0, "drain-capped")
+	add(st.DCTChains > 0, "dct-chain-drained")
 	add(st.RefsCapped, "refs-capped")
 	add(st.PagesDecoded > 0, "page-decoded")
 	add(st.PageErrs > 0, "page-errors")
@@ -383,13 +397,16 @@ func TestSeeds(t *testing.T) {
 			err := vt.Guard(func() error { return checkCase(&c) })
 			_, cls := classify(&c)
 			tag := "other"
-			for _, p := range []string{"lib-font", "lib-struct", "lib-enc", "repo-", "repofuzz-", "hostile-"} {
+			for _, p := range []string{"lib-font", "lib-struct", "lib-enc", "repo-", "repofuzz-", "hostile-", "gen-"} {
 				if strings.HasPrefix(s.Name, p) {
 					tag = strings.TrimSuffix(p, "-")
 				}
 			}
 			if c.st != nil {
 				cls = append(cls, tag+"/stage:"+stageNames[c.st.Stage])
+			}
+			if tag == "hostile" || tag == "gen" {
+				cls = append(cls, "file:"+s.Name)
 			}
 			st.Eval(vt.HashBytes(c.Data, []byte{byte(mode)}), c.st != nil && c.st.Opened && c.st.Fetched > 0, cls...)
 			for _, f := range c.excluded {
